@@ -33,11 +33,13 @@ static uint32_t child(struct S_AJ__detail__JsonDeserializer* d, uint8_t limit, u
 /* ArrayData::addElement is cut as well (it is decided on its own in the slot-pool obligations): the stub hands out
  * fresh slots from a harness array, or NULL (allocation failure) */
 static struct S_AJ__detail__VariantData g_slots[MAXC + 1]; static unsigned g_adds, g_add_failed; static struct S_AJ__detail__VariantData* g_child_slot[MAXC + 1];
+#ifdef CUT_ADD_ELEMENT
 struct S_AJ__detail__VariantData* CUT_ADD_ELEMENT(struct S_AJ__detail__ArrayData* a, struct S_AJ__detail__ResourceManager* rm) {
   unsigned c = g_adds < MAXC ? g_adds : MAXC; g_adds++;
   if (vin_u8() & 1) { g_add_failed = 1; return 0; }
   return &g_slots[c];
 }
+#endif
 uint32_t CUT_PV_ALL(struct S_AJ__detail__JsonDeserializer* d, struct S_AJ__detail__VariantData* v, uint8_t limit) {
   g_child_slot[g_calls < MAXC ? g_calls : MAXC] = v;
   return child(d, limit, 0);
@@ -131,7 +133,10 @@ void h_skip_array(void) {
 
 /* ================= objects: '{' (key ':' value (',' key ':' value)*)? '}'  with blanks allowed around every token.
  * parseKey / skipKey are cut as well (they are decided on their own): the key stub consumes bytes like a child does. */
+#if defined(CUT_SKEY) || defined(CUT_PKEY)
 #ifdef CUT_SKEY
+#define CUT_SKEY_REAL 1
+#endif
 static unsigned g_keyc, g_kk[MAXC + 1], g_kmode[MAXC + 1], g_kcode[MAXC + 1], g_kpos[MAXC + 1], g_kla[MAXC + 1];
 static uint32_t keystub(struct S_AJ__detail__JsonDeserializer* d) {
   unsigned c = g_keyc < MAXC ? g_keyc : MAXC; g_keyc++;
@@ -142,7 +147,9 @@ static uint32_t keystub(struct S_AJ__detail__JsonDeserializer* d) {
   g_kk[c] = k; g_kmode[c] = mode; g_kcode[c] = code;
   return code;
 }
+#ifdef CUT_SKEY_REAL
 uint32_t CUT_SKEY(struct S_AJ__detail__JsonDeserializer* d) { return keystub(d); }
+#endif
 static void after_key(struct RS* s, unsigned c) {
   s->pos += g_kk[c];
   if (g_kmode[c] == 2) { s->pos = g_n; s->la = 1; s->ended = 1; } else if (g_kmode[c] == 1) { s->la = 1; if (g_in[s->pos - 1] == 0) s->ended = 1; } else s->la = 0;
@@ -174,6 +181,7 @@ static int ref_object(uint8_t L, unsigned* ncalls, unsigned* nkeys, unsigned* co
   }
   *consumed = s.pos; return -1;
 }
+#ifdef CUT_SKEY
 void h_skip_object(void) {
   uint8_t in[TOT]; in[0] = '{'; for (unsigned i = 1; i < TOT; i++) in[i] = vin_u8();
   uint8_t L = vin_u8(); g_in = in; g_n = TOT;
@@ -190,5 +198,51 @@ void h_skip_object(void) {
   if (L == 0) { VASSERT(o.code == TOODEEP && g_calls == 0 && g_keyc == 0, "limit 0: TooDeep first"); VWITNESS("toodeep"); }
   if (o.code == TOODEEP && L != 0) VASSERT(g_calls >= 1 && g_code[g_calls - 1 < MAXC ? g_calls - 1 : MAXC] == TOODEEP, "TooDeep otherwise only propagated from a value");
   if (r == OK && nc == 1) VWITNESS("one-member"); if (r == OK && nc == 0) VWITNESS("empty"); if (r == INVALID) VWITNESS("invalid");
+}
+#endif
+#endif
+
+/* ================= parseObject: like skipObject, plus the member handling. Cut: parseKey, ObjectData::getMember (returns
+ * "found" or not, nondeterministically), StringBuilder::save, ObjectData::addMember (may fail), VariantData::clear. */
+#ifdef CUT_PKEY
+static struct S_AJ__detail__VariantData g_member[MAXC + 1], g_existing[MAXC + 1]; static struct S_AJ__detail__StringNode g_node;
+static unsigned g_gets, g_found[MAXC + 1], g_saves, g_madds, g_madd_failed, g_clears; static struct S_AJ__detail__VariantData* g_cleared[MAXC + 1]; static unsigned g_seq_bad;
+uint32_t CUT_PKEY(struct S_AJ__detail__JsonDeserializer* d) { uint8_t k[1] = {'k'}; uint32_t c = keystub(d); if (c == OK) w_jd_set_key(d, k, 1); return c; }
+struct S_AJ__detail__VariantData* CUT_GETMEMBER(struct S_AJ__detail__ObjectData* o, uint8_t* key, struct S_AJ__detail__ResourceManager* rm) {
+  unsigned c = g_gets < MAXC ? g_gets : MAXC; g_gets++; if (g_gets != g_keyc || g_gets != g_calls + 1) g_seq_bad = 1;
+  VASSERT(key != 0 && key[0] == 'k' && key[1] == 0, "the key looked up is the key that was just parsed");
+  g_found[c] = vin_u8() & 1; return g_found[c] ? &g_existing[c] : 0;
+}
+struct S_AJ__detail__StringNode* CUT_SB_SAVE(struct S_AJ__detail__StringBuilder* sb) { g_saves++; return &g_node; }
+struct S_AJ__detail__VariantData* CUT_ADD_MEMBER(struct S_AJ__detail__ObjectData* o, struct S_AJ__detail__StringNode* key, struct S_AJ__detail__ResourceManager* rm) {
+  unsigned c = g_gets ? g_gets - 1 : 0; g_madds++; VASSERT(key == &g_node, "the member is added with the key that was just saved");
+  if (vin_u8() & 1) { g_madd_failed = 1; return 0; } return &g_member[c < MAXC ? c : MAXC];
+}
+void CUT_VCLEAR(struct S_AJ__detail__VariantData* v, struct S_AJ__detail__ResourceManager* rm) { g_cleared[g_clears < MAXC ? g_clears : MAXC] = v; g_clears++; }
+void h_parse_object(void) {
+  uint8_t in[TOT]; in[0] = '{'; for (unsigned i = 1; i < TOT; i++) in[i] = vin_u8();
+  uint8_t L = vin_u8(); g_in = in; g_n = TOT;
+  struct Out o = {0}; uint8_t oo[128];
+  w_parse_object(in, TOT, 0, L, &o, (void*)oo);
+  VOBS(o.code); VOBS(o.consumed); VOBS(g_calls); VOBS(g_keyc);
+  if (g_madd_failed) { VASSERT(o.code == NOMEM && g_calls == g_gets - 1, "a member slot that cannot be allocated: NoMemory, its value is not parsed (C05)"); VWITNESS("nomem"); return; }
+  unsigned nc, nk, cons; int r = ref_object(L, &nc, &nk, &cons);
+  if (r < 0) { VASSUME(0); }
+  VASSERT(o.code <= 5 && (int)o.code == r, "code equals the reference object recogniser");
+  VASSERT(g_calls == nc && g_keyc == nk, "keys and values are parsed exactly when the grammar asks for them");
+  VASSERT(o.consumed == cons && o.consumed <= g_n, "bytes consumed equal the reference; never beyond the input");
+  if (r == OK) VASSERT(o.latched == 0, "closing brace consumed without look-ahead");
+  VASSERT(!g_seq_bad && g_gets == g_calls + ((r != OK && nk > nc && g_kcode[nk - 1 < MAXC ? nk - 1 : MAXC] == OK && g_gets > g_calls) ? 1 : 0), "each parsed key is looked up once before its value is parsed");
+  unsigned clears = 0, adds = 0;
+  for (unsigned c = 0; c < MAXC; c++) if (c < g_calls) {
+    VASSERT(g_limit_seen[c] == (uint8_t)(L - 1), "every value receives the nesting limit minus one"); VASSERT(g_kind[c] == 0, "without a filter nothing is skipped");
+    if (g_found[c]) { VASSERT(g_child_slot[c] == &g_existing[c], "a repeated key: the value is parsed into the EXISTING member (last occurrence wins)"); clears++; }
+    else { VASSERT(g_child_slot[c] == &g_member[c], "a new key: the value is parsed into the member just appended"); adds++; }
+  }
+  VASSERT(g_clears == clears && g_madds >= adds && g_saves == g_madds, "an existing member is cleared exactly once before being re-parsed; a new key is saved once and added once");
+  for (unsigned c = 0, k = 0; c < MAXC; c++) if (c < g_calls && g_found[c]) { VASSERT(g_cleared[k] == &g_existing[c], "the member that is cleared is the one found"); k++; }
+  if (L == 0) { VASSERT(o.code == TOODEEP && g_calls == 0 && g_keyc == 0, "limit 0: TooDeep first"); VWITNESS("toodeep"); }
+  if (o.code == TOODEEP && L != 0) VASSERT(g_calls >= 1 && g_code[g_calls - 1 < MAXC ? g_calls - 1 : MAXC] == TOODEEP, "TooDeep otherwise only propagated from a value");
+  if (r == OK && nc == 1 && g_found[0]) VWITNESS("dup"); if (r == OK && nc == 1 && !g_found[0]) VWITNESS("new"); if (r == INVALID) VWITNESS("invalid");
 }
 #endif
